@@ -23,6 +23,11 @@ type Violation struct {
 	Kind  string          `json:"kind"` // replay executor name inside the check
 	Case  json.RawMessage `json:"case"`
 	Count int64           `json:"count"` // number of cases that mapped to this key
+	// Alt holds a few further cases with the same key (and their descriptions): when the first
+	// case does not reproduce from its replay file in a fresh process (it depended on state left
+	// by earlier cases of the run), the supervisor tries these before giving the key up.
+	Alt     []json.RawMessage `json:"alt,omitempty"`
+	AltDesc []string          `json:"alt_desc,omitempty"`
 }
 
 // A Check is one property check.
@@ -213,6 +218,12 @@ func (c *Ctx) Violate(key, desc, kind string, cs any) {
 	defer c.mu.Unlock()
 	if v, ok := c.viol[key]; ok {
 		v.Count++
+		if len(v.Alt) < 4 {
+			if raw, err := json.Marshal(cs); err == nil && string(raw) != string(v.Case) {
+				v.Alt = append(v.Alt, raw)
+				v.AltDesc = append(v.AltDesc, desc)
+			}
+		}
 		return
 	}
 	if len(c.viol) >= maxKeys {
